@@ -180,8 +180,52 @@ def m_C01(run):
             if rr is not None and rr < cause_round and v.startswith("ok") and o not in hs:
                 f.append("op %d returned %s in round %d, before the stop cause (round %d) of actor %d, "
                          "but was not handled before on_stop" % (o, v, rr + 1, cause_round + 1, a))
+        # ... whatever became of the caller afterwards (its timeout elapsed, its future was dropped)
+        for o, r_acc in accepted_by_capacity(run, a).items():
+            if r_acc < cause_round and o not in hs:
+                rr, v = run.result_round(o)
+                f.append("op %d was in the mailbox of actor %d by round %d (everything sent by then fitted into it), "
+                         "before the stop cause (round %d), but was not handled before on_stop (its caller got %s)"
+                         % (o, a, r_acc + 1, cause_round + 1, v))
     f += skipped_in_queue(run)
     return f
+
+
+def accepted_by_capacity(run, a):
+    """Operations that must be in a's mailbox by the end of the round they began in: at that
+    quiescent point every operation sent to a and not yet taken by it fits into the mailbox together,
+    and nobody waits while a slot is free (C09) - so they were all accepted, whatever their callers
+    were told later.  Conservative: operations of hooks make the count uncertain (skip the actor),
+    finished operations whose fate is unknown are counted as still queued."""
+    out = {}
+    if run.realtime or a >= len(run.caps):
+        return out
+    if any(m["hook"] and m.get("hook_target") in (a, None) for m in run.ops.values()):
+        return out
+    ops_a = [(o, m) for o, m in run.ops.items() if m["target"] == a and not m["hook"] and m["round"] is not None]
+    for o, m in ops_a:
+        if m["kind"] not in ("tell", "ask"):
+            continue
+        r = m["round"]
+        if r >= len(run.rounds):
+            continue
+        line = run.aline(r, a)
+        evs = events(line)
+        if tok(line, "join=") != "running" or "ST0" in evs or "ST1" in evs:
+            continue
+        taken = set(he_of(evs))
+        pending = 0
+        for o2, m2 in ops_a:
+            if m2["round"] > r:
+                continue
+            if m2["kind"] in ("tell", "ask") and o2 in taken:
+                continue
+            if run.res(r, o2) == "send":
+                continue
+            pending += 1
+        if pending <= run.caps[a]:
+            out[o] = r
+    return out
 
 
 def skipped_in_queue(run, order_too=False):
@@ -563,6 +607,30 @@ def m_C09(run, mon_text=""):
             if waiting > run.caps[a]:
                 f.append("round %d: %d tells/stops accepted and not yet taken by actor %d whose capacity is %d" % (r + 1, waiting, a, run.caps[a]))
                 return f
+    f += failed_on_live_actor(run)
+    return f
+
+
+def failed_on_live_actor(run):
+    """A send fails with Err(Send) only when the mailbox is closed, and the mailbox is closed only
+    after the actor has begun to end.  So a tell / ask / stop that returned Err(Send) while its
+    target, observed afterwards, is still running and has neither entered on_stop nor crashed,
+    failed where it had to wait (full mailbox) or succeed."""
+    f = []
+    for o, m in run.ops.items():
+        a = m["target"]
+        if a is None or m["hook"] or m["round"] is None:
+            continue
+        rr, v = run.result_round(o)
+        if v != "send" or rr is None:
+            continue
+        line = run.aline(rr, a)
+        evs = events(line)
+        join = tok(line, "join=")
+        if join == "running" and "ST0" not in evs and "ST1" not in evs and not crashed(evs, join) \
+                and not any(e.startswith("RD:err") or e.endswith("panic") for e in evs):
+            f.append("op %d (%s) returned Err(Send) in round %d although actor %d was running and had not begun to end"
+                     % (o, m["kind"], rr + 1, a))
     return f
 
 
